@@ -123,7 +123,17 @@ def run_job(job, rec):
         y = pred_true + zres * s
         rec.context = {"case": c, "class": name, "n": n, "model": model.kind, "regime": regime, "sigma_base": base}
 
-        form = str(rng.choice(["array", "list", "scalar"])) if n == 1 else str(rng.choice(["array", "list", "row2d", "nested", "column2d"]))
+        form = str(rng.choice(["array", "list", "scalar", "int"])) if n == 1 else str(rng.choice(["array", "list", "row2d", "nested", "column2d", "int", "intlist", "f32"]))
+        if form in ("int", "intlist"):
+            # integer-typed data and uncertainties (counts): legal input, must be treated as the same numbers
+            y = np.rint(np.clip(y, -1e15, 1e15))
+            s = np.maximum(np.rint(np.clip(s, 0, 1e15)), 1.0)
+        elif form == "f32":
+            # float32 data (the uncertainties stay float64: arithmetic on float32 uncertainties is legitimately single precision)
+            y = y.astype(np.float32).astype(float)
+        int_theta = bool(rng.random() < 0.15)
+        if int_theta:
+            theta = np.rint(theta * 2)
         if form == "list":
             ya, sa = [float(v) for v in y], [float(v) for v in s]
         elif form == "row2d":       # shapes the constructor accepts and squeezes
@@ -134,6 +144,12 @@ def run_job(job, rec):
             ya, sa = [[float(v) for v in y]], [float(v) for v in s]
         elif form == "scalar":
             ya, sa = float(y[0]), float(s[0])
+        elif form == "int":
+            ya, sa = y.astype(np.int64), s.astype(np.int64)
+        elif form == "intlist":
+            ya, sa = [int(v) for v in y], [int(v) for v in s]
+        elif form == "f32":
+            ya, sa = y.astype(np.float32), s.copy()
         else:
             ya, sa = y.copy(), s.copy()
 
@@ -142,6 +158,9 @@ def run_job(job, rec):
             rec.violation("raised", f"{name}Likelihood constructor raised {L!r}", rec.context)
             continue
         pred = model(theta)
+        if int_theta:
+            theta = theta.astype(np.int64)
+            rec.count("cases:integer_typed_parameters")
         rec.case(digest(name, y, s, pred), nontrivial=bool(np.any(y != pred)))
         rec.count("cases:" + regime)
         rec.count("cases:" + name)
